@@ -31,7 +31,9 @@ JOBQUEUE = {
                       "harness_cfg": dict(JQ_HCFG, JCSync=True), "flags": []}],
     },
     "goals": {t: [{"module": "JobQueue_Goal.tla", "cfg": "JobQueue_Goal_jc.cfg", "harness_cfg": dict(JQ_HCFG, JCSync=True, MaxJobs=2), "timeout": 300, "flags": ["-suffix", n]},
-                  {"module": "JobQueue_Goal.tla", "cfg": "JobQueue_Goal_q.cfg", "harness_cfg": JQ_HCFG, "timeout": 300, "flags": ["-suffix", n]}]
+                  {"module": "JobQueue_Goal.tla", "cfg": "JobQueue_Goal_q.cfg", "harness_cfg": JQ_HCFG, "timeout": 300, "flags": ["-suffix", n]},
+                  # the same directed schedules with the restart's informers listing Jobs before JobConfigs
+                  {"module": "JobQueue_Goal.tla", "cfg": "JobQueue_Goal_q.cfg", "harness_cfg": dict(JQ_HCFG, JobsFirst=True), "label": "jobsfirst", "timeout": 300, "flags": ["-suffix", n]}]
               for t, n in (("quick", "20"), ("thorough", "50"))},
     "harness": {
         "quick": [
